@@ -712,3 +712,59 @@ def rule_state_updates(ctx):
 
 
 RULES.append(("C13.o", "conditional task state transitions equal their reviewed tables", rule_state_updates))
+
+
+def rule_waker_vtable(ctx):
+    """The raw-waker vtable wires each slot to the function with that slot's reference discipline: clone adds one reference, wake
+    (by value) turns the waker's own reference into a wake-up, wake_by_ref adds a wake-up and keeps the reference, drop releases one
+    reference. A swapped slot or a wrong delta keeps every call in place and corrupts the reference count."""
+    P = ctx.prog
+    C = consts(P)
+    if None in C.values():
+        return ctx.missing("task state constants")
+    n = 0
+    for b in task_bodies(P):
+        for s in b.calls(r"RawWakerVTable::new$"):
+            n += 1
+            fns = []
+            for i in range(4):
+                o = b.origins(s.args()[i], s)
+                fns.append(P.body(next(iter(o))[1]) if len(o) == 1 and next(iter(o))[0] == "fn" else None)
+            if None in fns:
+                ctx.ob("waker-vtable|slots-are-functions", False, "the four vtable slots are functions of the task module", [s])
+                continue
+            cl, wv, wr, dr = fns
+
+            def rmw(f, name):
+                return [x for x in f.calls("^" + ATOM + name + "$") if atomics.receiver_field(f, x) == "state"]
+
+            def wake_delta(f):
+                ws = list(f.calls(lambda c: c == TASK + "Task::wake"))
+                if len(ws) != 1:
+                    return None
+                return const_eval_set(f.origins(ws[0].args()[1], ws[0]))
+            # clone: +REF_INC, hands out the same data pointer with this vtable
+            a = rmw(cl, "fetch_add")
+            ok = len(a) == 1 and const_eval_set(cl.origins(a[0].args()[1], a[0])) == C["REF_INC"] and not rmw(cl, "fetch_sub") and wake_delta(cl) is None
+            rw = list(cl.calls(r"RawWaker::new$"))
+            ok = ok and len(rw) == 1 and cl.origins(rw[0].args()[0], rw[0]) == frozenset([("arg", 1)])
+            if ok:
+                vo = cl.origins(rw[0].args()[1], rw[0])
+                ok = bool(vo) and all(x[0] == "call" and P.body(x[2]) is b or (x[0] == "call" and x[2] == b.name) for x in vo)
+            ctx.ob("waker-vtable|clone-slot-adds-one-reference", ok, "slot 0 adds REF_INC and returns a waker on the same task with the same vtable", [s] + a)
+            ok = wake_delta(wv) == (C["WAKE_INC"] - C["REF_INC"])
+            ctx.ob("waker-vtable|wake-slot-consumes-reference", ok, "slot 1 wakes with WAKE_INC - REF_INC (the waker's own reference is released by the same update)", [s])
+            ok = wake_delta(wr) == C["WAKE_INC"] and not rmw(wr, "fetch_sub")
+            ctx.ob("waker-vtable|wake-by-ref-slot-keeps-reference", ok, "slot 2 wakes with WAKE_INC and releases nothing", [s])
+            d = rmw(dr, "fetch_sub")
+            ok = len(d) == 1 and const_eval_set(dr.origins(d[0].args()[1], d[0])) == C["REF_INC"] and wake_delta(dr) is None and not rmw(dr, "fetch_add")
+            ctx.ob("waker-vtable|drop-slot-releases-one-reference", ok, "slot 3 subtracts REF_INC and wakes nobody", [s] + d)
+    ctx.ob("floor|waker-vtables", n == 1, "expected one raw-waker vtable in the task module (found %d)" % n)
+    w = ctx.body(TASK + "Task::wake")
+    if w is not None:
+        a = [x for x in w.calls("^" + ATOM + "fetch_add$") if atomics.receiver_field(w, x) == "state"]
+        ok = len(a) == 1 and w.origins(a[0].args()[1], a[0]) == frozenset([("arg", 2)]) and not w.conditions(a[0])
+        ctx.ob("waker-vtable|wake-applies-given-delta", ok, "Task::wake adds exactly the delta it is given, unconditionally", a)
+
+
+RULES.append(("C13.p", "raw-waker vtable slots and their reference / wake deltas", rule_waker_vtable))
